@@ -276,6 +276,12 @@ def hdl21_naming_encoder(obj: Any) -> Any:
     from .generator import Generator
     from .primitives import Primitive, PrimitiveCall
 
+    from .prefix import Prefixed
+
+    if isinstance(obj, Prefixed):
+        # Equal values get equal names, however they are written, e.g. `1000 * m` and `1 * UNIT`
+        value = obj.exact()
+        return f"{value.numerator}/{value.denominator}"
     if isinstance(obj, (Instance,)):
         # Not supported as parameters
         raise RuntimeError(f"Invalid `hdl21.paramclass` field {obj}")
